@@ -62,6 +62,7 @@ def batches(tier):
             {"name": "fockcount", "runs": 240, "weight": 2, "seed_offset": 500000},
             {"name": "hetero", "runs": 700, "weight": 1, "seed_offset": 600000},
             {"name": "loaded", "runs": 500, "weight": 1, "seed_offset": 700000},
+            {"name": "reuse", "runs": 600, "weight": 1, "seed_offset": 800000},
         ]
     return [
         {"name": "gaussian", "runs": 30000, "weight": 4},
@@ -72,6 +73,7 @@ def batches(tier):
         {"name": "fockcount", "runs": 4000, "weight": 2, "seed_offset": 500000},
         {"name": "hetero", "runs": 8000, "weight": 1, "seed_offset": 600000},
         {"name": "loaded", "runs": 6000, "weight": 1, "seed_offset": 700000},
+        {"name": "reuse", "runs": 6000, "weight": 1, "seed_offset": 800000},
     ]
 
 
@@ -233,6 +235,18 @@ def gen_loaded(r, seed):
             "cutoff": 5, "foreign": [], "misuse": None, "loaded": True}
 
 
+def gen_reuse(r, seed):
+    """objects the user keeps and uses again: a free parameter whose default is changed / removed between runs, and a pair of program
+    fragments (measure, use) executed repeatedly on one engine"""
+    kind = r.choice(["default_change", "fragment_repetition"])
+    n = r.randint(2, 3)
+    g = r.choice(["Xgate", "Zgate", "Rgate", "Dgate"])
+    return {"backend": r.choice(["gaussian", "gaussian", "bosonic"]) if kind == "default_change" else "gaussian", "n": n, "segs": [], "bind": {}, "tape": seed,
+            "how": {"mode": "run", "optimize": False}, "cutoff": 5, "foreign": [], "misuse": None, "reuse": kind, "gate": g, "coef": rnd(r, 0.2, 0.9),
+            "values": [rnd(r, -0.8, 0.8) for _ in range(4)], "prep": [[rnd(r, 0.2, 0.9), rnd(r, 0, 6)] for _ in range(n)], "phi": rnd(r, 0, 3),
+            "reps": r.randint(2, 3), "fresh_engine": r.random() < 0.5, "pname": "dflt%d" % (seed % 7)}
+
+
 def blackbird_text(sp):
     def num(x):
         return repr(float(x))
@@ -260,6 +274,8 @@ def generate(seed, tier, batch):
         return gen_hetero(r, seed)
     if batch == "loaded":
         return gen_loaded(r, seed)
+    if batch == "reuse":
+        return gen_reuse(r, seed)
     big = tier == "thorough"
     backend = batch if batch in ("gaussian", "bosonic", "fock") else r.choice(["gaussian", "gaussian", "bosonic", "fock"] if batch == "misuse" else ["gaussian", "gaussian", "bosonic"])
     n = r.randint(1, 3 if backend == "fock" else 4)
@@ -497,6 +513,8 @@ def execute(script, w):
         return exec_hetero(script, w, feats)
     if script.get("loaded"):
         return exec_loaded(script, w, feats)
+    if script.get("reuse"):
+        return exec_reuse(script, w, feats)
     with simenv:
         simenv.rng.handler = tape
         if script.get("misuse"):
@@ -696,6 +714,120 @@ def exec_hetero(script, w, feats):
             return
         w.nontrivial.add(hashlib.sha256(json.dumps(script, sort_keys=True).encode()).hexdigest()[:16])
         w.probes["complex_outcome_as_parameter"] += 1
+
+
+def exec_reuse(script, w, feats):
+    import strawberryfields as sf
+    from strawberryfields import ops as sfops
+    from strawberryfields.parameters import ParameterError
+
+    backend, n, g, c = script["backend"], script["n"], script["gate"], script["coef"]
+    outcomes = SeededOutcomes(script["tape"], w)
+    cnt = {"k": 0}
+    feats = feats + ["reuse=" + script["reuse"]]
+
+    def on_call(phase, be, name, a, k, out):
+        pass
+
+    def handler(name, args, kwargs, native):
+        if name != "multivariate_normal":
+            return outcomes(name, args, kwargs, native)
+        v = script["values"][cnt["k"] % len(script["values"])]  # the k-th homodyne outcome of the session
+        cnt["k"] += 1
+        size = kwargs.get("size", args[2] if len(args) > 2 else None)
+        y = np.array([v, 0.0])
+        return np.tile(y, (int(size), 1)) if size else y
+
+    def gate(x):
+        return getattr(sfops, g)(x, 0.4) if g == "Dgate" else getattr(sfops, g)(x)
+
+    def numeric_state(xs):
+        """the circuit with the numbers substituted: preparation, then per use the measurement of mode 0 (if any) and the gate with value x"""
+        p_ = sf.Program(n)
+        with p_.context as q:
+            for m_, (a_, ph_) in enumerate(script["prep"]):
+                sfops.Coherent(a_, ph_) | q[m_]
+            for x in xs:
+                if script["reuse"] == "fragment_repetition":
+                    sfops.MeasureHomodyne(script["phi"]) | q[0]
+                gate(x) | q[1]
+        cnt["k"] = 0
+        return state_obs(simenv.engine(backend).run(p_).state)
+
+    simenv = SimEnv(w, outcomes, FaultPlan(), on_call=on_call)
+    with simenv:
+        simenv.rng.handler = handler
+        if script["reuse"] == "default_change":
+            prog = sf.Program(n)
+            par = prog.params(script["pname"])
+            with prog.context as q:
+                for m_, (a_, ph_) in enumerate(script["prep"]):
+                    sfops.Coherent(a_, ph_) | q[m_]
+                gate(c * par) | q[1]
+            eng = simenv.engine(backend)
+            for step, dv in enumerate(script["values"][: script["reps"]]):
+                # the default is a property of the parameter the user may change between runs; no run binds anything
+                par.default = dv
+                w.step("run_with_default", default=dv)
+                try:
+                    if script["fresh_engine"]:
+                        eng = simenv.engine(backend)
+                    elif step:
+                        eng.reset()
+                    got = state_obs(eng.run(prog).state)
+                except Exception as ex:  # noqa
+                    w.violation("substitution", "symbolic-run-raises", {"exc": type(ex).__name__, "msg": str(ex)[:300], "step": step}, feats)
+                    return
+                d = obs_diff(numeric_state([c * dv]), got, 1e-7)
+                if d:
+                    w.violation("substitution", "run-with-current-default vs numeric twin", {"diff": d, "step": step, "default_now": dv, "defaults_before": script["values"][:step]}, feats)
+                    return
+            par.default = None
+            w.step("run_without_default")
+            try:
+                (simenv.engine(backend) if script["fresh_engine"] else eng).run(prog) if script["fresh_engine"] else (eng.reset(), eng.run(prog))
+            except ParameterError:
+                w.probes["unbound_parameter_without_default_rejected"] += 1
+                w.nontrivial.add(hashlib.sha256(json.dumps(script, sort_keys=True).encode()).hexdigest()[:16])
+                return
+            except Exception as ex:  # noqa
+                w.violation("misuse", "unbound-without-default:wrong-exception", {"exc": type(ex).__name__, "msg": str(ex)[:200]}, feats)
+                return
+            w.violation("misuse", "unbound-without-default:accepted", {"defaults_used_before": script["values"][: script["reps"]]}, feats)
+            return
+        # fragment repetition: (measure, use) (measure, use) ... on one engine; the library allows a program to follow any program with the same register
+        p1 = sf.Program(n)
+        with p1.context as q:
+            sfops.MeasureHomodyne(script["phi"]) | q[0]
+        p0 = sf.Program(n)
+        with p0.context as q:
+            for m_, (a_, ph_) in enumerate(script["prep"]):
+                sfops.Coherent(a_, ph_) | q[m_]
+        p1 = sf.Program(p0)
+        with p1.context as q:
+            sfops.MeasureHomodyne(script["phi"]) | q[0]
+        p2 = sf.Program(p1)
+        with p2.context as q:
+            gate(c * q[0].par) | q[1]
+        eng = simenv.engine(backend)
+        cnt["k"] = 0
+        try:
+            eng.run(p0)
+            for _ in range(script["reps"]):
+                w.step("run_fragments")
+                eng.run(p1)
+                res = eng.run(p2)
+        except Exception as ex:  # noqa
+            w.violation("substitution", "symbolic-run-raises", {"exc": type(ex).__name__, "msg": str(ex)[:300]}, feats)
+            return
+        got = state_obs(res.state)
+        hb = math.sqrt(sf.hbar / 2)
+        d = obs_diff(numeric_state([c * script["values"][i_ % len(script["values"])] * hb for i_ in range(script["reps"])]), got, 1e-7)
+        if d:
+            w.violation("latest-outcome", "repeated-fragment uses the most recent outcome", {"diff": d, "outcomes": script["values"][: script["reps"]]}, feats)
+            return
+        w.probes["program_fragments_repeated"] += 1
+        w.nontrivial.add(hashlib.sha256(json.dumps(script, sort_keys=True).encode()).hexdigest()[:16])
 
 
 def exec_loaded(script, w, feats):
